@@ -200,9 +200,15 @@ class Snap(object):
 
         def dt(x):
             return None if x is None else [x.year, x.month, x.day, x.hour, x.minute, x.second]
+
+        def written(name):
+            # an absent (or unreadable) date is replaced by datetime.now() by the loader: not a value of the file
+            x = A.xmlnode if self.u(A) else None
+            return x is not None and any(isinstance(ch.tag, str) and ch.tag.split('}')[-1] == name for ch in x)
         return {'uid': self.u(A), 'title': A.title, 'subject': A.subject, 'revision': A.revision, 'keywords': A.keywords,
                 'unitname': A.unitname, 'unitmeter': None if A.unitmeter is None else fkey(A.unitmeter),
-                'upaxis': A.upaxis, 'created': dt(A.created), 'modified': dt(A.modified),
+                'upaxis': A.upaxis, 'created': dt(A.created) if written('created') else None,
+                'modified': dt(A.modified) if written('modified') else None,
                 'contributors': [{'author': c.author, 'authoring_tool': c.authoring_tool, 'comments': c.comments,
                                   'copyright': c.copyright, 'source_data': c.source_data} for c in A.contributors]}
 
